@@ -14,6 +14,7 @@ D. non-vacuity examples and concrete evaluations (tests, not properties).
 import PgVerif.Gen.CharR
 import PgVerif.Model.Linear
 import Mathlib.Tactic
+import Mathlib.Data.List.GetD
 
 namespace PgVerif.Props.C14
 open PgVerif.Gen.CharR PgVerif.Model.Linear
@@ -516,5 +517,685 @@ theorem da_true_exponent_has_zero_residual (V0 ρ M T E k : ℝ) (ps : List ℝ)
   rw [hr, da_transform_linear V0 ρ M T E k p (hp p hpm).1 (hp p hpm).2 hV hρ hM hT hE hk]
 
 end Recovery
+
+/-! ## C. window selection -/
+section Search
+variable {α : Type} [LinearOrder α]
+
+lemma searchsorted_cons (x : α) (xs : List α) (v : α) :
+    searchsorted (x :: xs) v = if x < v then searchsorted xs v + 1 else 0 := rfl
+
+lemma searchsorted_le_length (ps : List α) (v : α) : searchsorted ps v ≤ ps.length := by
+  induction ps with
+  | nil => simp [searchsorted]
+  | cons x xs ih =>
+    rw [searchsorted_cons]; split_ifs <;> simp; exact ih
+
+/-- key fact: in a sorted list the indices below `searchsorted ps v` are exactly those holding a value `< v` -/
+lemma lt_searchsorted_iff (ps : List α) (hs : ps.Pairwise (· ≤ ·)) (v : α) (i : ℕ) (h : i < ps.length) :
+    i < searchsorted ps v ↔ ps[i] < v := by
+  induction ps generalizing i with
+  | nil => simp at h
+  | cons x xs ih =>
+    rw [List.pairwise_cons] at hs
+    rw [searchsorted_cons]
+    by_cases hx : x < v
+    · rw [if_pos hx]
+      cases i with
+      | zero => simpa using hx
+      | succ j =>
+        simp only [List.getElem_cons_succ, Nat.add_lt_add_iff_right]
+        exact ih hs.2 j (by simpa using h)
+    · rw [if_neg hx]
+      simp only [Nat.not_lt_zero, false_iff, not_lt]
+      have hvx : v ≤ x := not_lt.mp hx
+      cases i with
+      | zero => simpa using hvx
+      | succ j =>
+        simp only [List.getElem_cons_succ]
+        exact le_trans hvx (hs.1 _ (List.getElem_mem _))
+
+lemma searchsorted_eq_length_filter (ps : List α) (hs : ps.Pairwise (· ≤ ·)) (v : α) :
+    searchsorted ps v = (ps.filter (fun p => decide (p < v))).length := by
+  induction ps with
+  | nil => rfl
+  | cons x xs ih =>
+    rw [List.pairwise_cons] at hs
+    rw [searchsorted_cons]
+    by_cases hx : x < v
+    · rw [if_pos hx, List.filter_cons_of_pos (by simpa using hx), List.length_cons, ih hs.2]
+    · rw [if_neg hx]
+      have : (x :: xs).filter (fun p => decide (p < v)) = [] := by
+        rw [List.filter_eq_nil_iff]
+        intro a ha
+        simp only [decide_eq_true_eq, not_lt]
+        rcases List.mem_cons.mp ha with rfl | ha'
+        · exact not_lt.mp hx
+        · exact le_trans (not_lt.mp hx) (hs.1 a ha')
+      rw [this]; rfl
+
+/-- **C16.** `numpy.searchsorted(ps, v)` (side = left) on a sorted (non-decreasing) list: it is the number of elements
+`< v`; every index below it holds a value `< v`, every index from it on holds a value `≥ v`. -/
+theorem searchsorted_spec (ps : List α) (hs : ps.Pairwise (· ≤ ·)) (v : α) :
+    searchsorted ps v = (ps.filter (fun p => decide (p < v))).length ∧
+    searchsorted ps v ≤ ps.length ∧
+    (∀ i (h : i < ps.length), i < searchsorted ps v → ps[i] < v) ∧
+    (∀ i (h : i < ps.length), searchsorted ps v ≤ i → v ≤ ps[i]) := by
+  refine ⟨searchsorted_eq_length_filter ps hs v, searchsorted_le_length ps v, ?_, ?_⟩
+  · intro i h hi; exact (lt_searchsorted_iff ps hs v i h).1 hi
+  · intro i h hi
+    by_contra hc
+    exact absurd ((lt_searchsorted_iff ps hs v i h).2 (not_le.mp hc)) (not_lt.mpr hi)
+
+/-- **contiguous-window lemma**: if the members of a list satisfying `P` are exactly those at the indices `a ≤ i < b`,
+then filtering by `P` is the slice `[a, b)`. -/
+lemma filter_eq_drop_take {β : Type} (P : β → Bool) (l : List β) (a b : ℕ)
+    (h : ∀ i (hi : i < l.length), P l[i] = true ↔ (a ≤ i ∧ i < b)) :
+    l.filter P = (l.take b).drop a := by
+  induction l generalizing a b with
+  | nil => simp
+  | cons x xs ih =>
+    have h0 := h 0 (by simp)
+    simp only [List.getElem_cons_zero] at h0
+    have ht : ∀ j (hj : j < xs.length), P xs[j] = true ↔ (a - 1 ≤ j ∧ j < b - 1) := by
+      intro j hj
+      have := h (j + 1) (by simpa using hj)
+      simp only [List.getElem_cons_succ] at this
+      rw [this]; omega
+    have iht := ih (a - 1) (b - 1) ht
+    cases b with
+    | zero =>
+      have hPx : ¬ (P x = true) := by rw [h0]; omega
+      rw [List.filter_cons_of_neg hPx, iht]; simp
+    | succ b' =>
+      cases a with
+      | zero =>
+        have hPx : P x = true := by rw [h0]; omega
+        rw [List.filter_cons_of_pos hPx, iht]; simp
+      | succ a' =>
+        have hPx : ¬ (P x = true) := by rw [h0]; omega
+        rw [List.filter_cons_of_neg hPx, iht]; simp
+
+end Search
+
+section Window
+variable {α : Type} [Field α] [LinearOrder α]
+
+lemma given_none : given (none : Option α) = none := rfl
+lemma given_some_zero : given (some (0 : α)) = none := by simp [given]
+lemma given_some_ne {v : α} (h : v ≠ 0) : given (some v) = some v := by simp [given, h]
+
+/-- "inside the user's limits" with the Python truthiness of the limits (`None` and `0` = not given):
+`lo ≤ p` if the lower limit is given, `p < hi` if the upper limit is given. -/
+def inLimits (lo hi : Option α) (p : α) : Bool :=
+  (match given lo with | some v => decide (v ≤ p) | none => true) &&
+  (match given hi with | some v => decide (p < v) | none => true)
+
+lemma inLimits_both {lo hi : α} (hlo : lo ≠ 0) (hhi : hi ≠ 0) (p : α) :
+    inLimits (some lo) (some hi) p = decide (lo ≤ p ∧ p < hi) := by
+  simp [inLimits, given_some_ne hlo, given_some_ne hhi]
+
+lemma limitWindow_snd_ge (ps : List α) (lo hi : Option α) : -1 ≤ (limitWindow ps lo hi).2 := by
+  unfold limitWindow
+  cases given hi <;> simp <;> omega
+
+lemma limitWindow_snd_lt (ps : List α) (lo hi : Option α) : (limitWindow ps lo hi).2 < ps.length := by
+  unfold limitWindow
+  cases given hi with
+  | none => simp
+  | some v => have := searchsorted_le_length ps v; simp; omega
+
+/-- **C17 (general form).** For a sorted pressure list, index `i` lies in `[minimum, maximum]` exactly when `ps[i]` is
+inside the limits that are given (every combination of given / `None` / `0` limits). -/
+theorem limitWindow_spec_general (ps : List α) (hs : ps.Pairwise (· ≤ ·)) (lo hi : Option α)
+    (i : ℕ) (h : i < ps.length) :
+    ((limitWindow ps lo hi).1 ≤ i ∧ (i : ℤ) ≤ (limitWindow ps lo hi).2) ↔ inLimits lo hi ps[i] = true := by
+  unfold limitWindow inLimits
+  have key : ∀ v, i < searchsorted ps v ↔ ps[i] < v := fun v => lt_searchsorted_iff ps hs v i h
+  cases hglo : given lo with
+  | none =>
+    cases hghi : given hi with
+    | none => simp; exact h
+    | some vh => simp; rw [← key vh]
+  | some vl =>
+    have kl : searchsorted ps vl ≤ i ↔ vl ≤ ps[i] := by
+      rw [← not_lt, key vl, not_lt]
+    cases hghi : given hi with
+    | none => simp; rw [kl]; exact and_iff_left h
+    | some vh => simp; rw [kl, ← key vh]
+
+/-- **C17.** Both limits given (non-zero): the selected indices are exactly those with `lo ≤ ps[i] < hi`
+(a half-open pressure interval: a point equal to the upper limit is excluded). -/
+theorem limitWindow_spec (ps : List α) (hs : ps.Pairwise (· ≤ ·)) (lo hi : α) (hlo : lo ≠ 0) (hhi : hi ≠ 0)
+    (i : ℕ) (h : i < ps.length) :
+    ((limitWindow ps (some lo) (some hi)).1 ≤ i ∧ (i : ℤ) ≤ (limitWindow ps (some lo) (some hi)).2)
+      ↔ (lo ≤ ps[i] ∧ ps[i] < hi) := by
+  rw [limitWindow_spec_general ps hs _ _ i h, inLimits_both hlo hhi]; simp
+
+/-- C17 variant: lower limit not given (`None` or `0`): only `ps[i] < hi` is required. -/
+theorem limitWindow_spec_hi_only (ps : List α) (hs : ps.Pairwise (· ≤ ·)) (lo : Option α) (hi : α)
+    (hlo : lo = none ∨ lo = some 0) (hhi : hi ≠ 0) (i : ℕ) (h : i < ps.length) :
+    ((limitWindow ps lo (some hi)).1 ≤ i ∧ (i : ℤ) ≤ (limitWindow ps lo (some hi)).2) ↔ ps[i] < hi := by
+  have hg : given lo = none := by rcases hlo with rfl | rfl; exacts [rfl, given_some_zero]
+  rw [limitWindow_spec_general ps hs _ _ i h]; simp [inLimits, hg, given_some_ne hhi]
+
+/-- C17 variant: upper limit not given (`None` or `0`): only `lo ≤ ps[i]` is required. -/
+theorem limitWindow_spec_lo_only (ps : List α) (hs : ps.Pairwise (· ≤ ·)) (lo : α) (hi : Option α)
+    (hlo : lo ≠ 0) (hhi : hi = none ∨ hi = some 0) (i : ℕ) (h : i < ps.length) :
+    ((limitWindow ps (some lo) hi).1 ≤ i ∧ (i : ℤ) ≤ (limitWindow ps (some lo) hi).2) ↔ lo ≤ ps[i] := by
+  have hg : given hi = none := by rcases hhi with rfl | rfl; exacts [rfl, given_some_zero]
+  rw [limitWindow_spec_general ps hs _ _ i h]; simp [inLimits, hg, given_some_ne hlo]
+
+/-- C17 variant: no limit given: the whole list. -/
+theorem limitWindow_none (ps : List α) (lo hi : Option α)
+    (hlo : lo = none ∨ lo = some 0) (hhi : hi = none ∨ hi = some 0) :
+    limitWindow ps lo hi = (0, (ps.length : ℤ) - 1) := by
+  have hg : given lo = none := by rcases hlo with rfl | rfl; exacts [rfl, given_some_zero]
+  have hg' : given hi = none := by rcases hhi with rfl | rfl; exacts [rfl, given_some_zero]
+  simp [limitWindow, hg, hg']
+
+/-- The points inside the limits form the contiguous slice `[minimum, maximum]`. -/
+theorem filter_inLimits_eq (ps : List α) (hs : ps.Pairwise (· ≤ ·)) (lo hi : Option α) :
+    ps.filter (inLimits lo hi)
+      = (ps.take ((limitWindow ps lo hi).2 + 1).toNat).drop (limitWindow ps lo hi).1 := by
+  apply filter_eq_drop_take
+  intro i h
+  rw [← limitWindow_spec_general ps hs lo hi i h]
+  have := limitWindow_snd_ge ps lo hi
+  omega
+
+/-- number of points inside the limits -/
+theorem countP_inLimits_eq (ps : List α) (hs : ps.Pairwise (· ≤ ·)) (lo hi : Option α) :
+    (ps.countP (inLimits lo hi) : ℤ)
+      = max 0 ((limitWindow ps lo hi).2 + 1 - (limitWindow ps lo hi).1) := by
+  rw [List.countP_eq_length_filter, filter_inLimits_eq ps hs lo hi]
+  have h1 := limitWindow_snd_ge ps lo hi
+  have h2 := limitWindow_snd_lt ps lo hi
+  simp only [List.length_drop, List.length_take]
+  omega
+
+/-- **C18 (general form).** The window is refused (`CalculationError`) exactly when fewer than three points lie inside
+the given limits. -/
+theorem window_refused_iff_general (ps : List α) (hs : ps.Pairwise (· ≤ ·)) (lo hi : Option α) :
+    decide3 (limitWindow ps lo hi) = none ↔ ps.countP (inLimits lo hi) < 3 := by
+  have hc := countP_inLimits_eq ps hs lo hi
+  unfold decide3
+  split_ifs with hw
+  · simp only [true_iff]; omega
+  · simp only [false_iff]; omega
+
+/-- **C18.** Both limits given: refusal ⇔ fewer than three points with `lo ≤ p < hi`. -/
+theorem window_refused_iff (ps : List α) (hs : ps.Pairwise (· ≤ ·)) (lo hi : α) (hlo : lo ≠ 0) (hhi : hi ≠ 0) :
+    decide3 (limitWindow ps (some lo) (some hi)) = none
+      ↔ ps.countP (fun p => decide (lo ≤ p ∧ p < hi)) < 3 := by
+  rw [window_refused_iff_general ps hs]
+  have : inLimits (some lo) (some hi) = fun p => decide (lo ≤ p ∧ p < hi) :=
+    funext (inLimits_both hlo hhi)
+  rw [this]
+
+/-- what an accepted window looks like -/
+theorem decide3_some (w : ℕ × ℤ) (a b : ℕ) (h : decide3 w = some (a, b)) :
+    a = w.1 ∧ (b : ℤ) = w.2 ∧ 3 ≤ b + 1 - a := by
+  unfold decide3 at h
+  split_ifs at h with hw
+  simp only [Option.some.injEq, Prod.mk.injEq] at h
+  omega
+
+omit [LinearOrder α] [Field α] in
+lemma slice_length (xs : List α) (a b : ℕ) : (slice xs (a, b)).length = min (b + 1) xs.length - a := by
+  simp [slice]
+
+omit [LinearOrder α] [Field α] in
+/-- **C18b.** An accepted window has at least three points. -/
+theorem slice_length_ge_three (ps : List α) (w : ℕ × ℤ) (a b : ℕ) (h : decide3 w = some (a, b))
+    (hb : b < ps.length) : 3 ≤ (slice ps (a, b)).length := by
+  have := decide3_some w a b h
+  rw [slice_length]; omega
+
+/-- accepted windows from `limitWindow` always lie inside the list -/
+theorem decide3_limitWindow_lt (ps : List α) (lo hi : Option α) (a b : ℕ)
+    (h : decide3 (limitWindow ps lo hi) = some (a, b)) : b < ps.length := by
+  have h1 := decide3_some _ a b h
+  have h2 := limitWindow_snd_lt ps lo hi
+  omega
+
+/-- **C19 (general form).** When the window is accepted, the fitted slice is exactly the list of points inside the
+given limits. -/
+theorem slice_eq_filter_general (ps : List α) (hs : ps.Pairwise (· ≤ ·)) (lo hi : Option α) (w : ℕ × ℕ)
+    (h : decide3 (limitWindow ps lo hi) = some w) : slice ps w = ps.filter (inLimits lo hi) := by
+  obtain ⟨a, b⟩ := w
+  have h1 := decide3_some _ a b h
+  rw [filter_inLimits_eq ps hs lo hi]
+  unfold slice
+  have e1 : ((limitWindow ps lo hi).2 + 1).toNat = b + 1 := by omega
+  rw [e1, ← h1.1]
+
+/-- **C19.** Both limits given, window accepted: `slice ps w = ps.filter (lo ≤ p < hi)`. -/
+theorem slice_eq_filter (ps : List α) (hs : ps.Pairwise (· ≤ ·)) (lo hi : α) (hlo : lo ≠ 0) (hhi : hi ≠ 0)
+    (w : ℕ × ℕ) (h : decide3 (limitWindow ps (some lo) (some hi)) = some w) :
+    slice ps w = ps.filter (fun p => decide (lo ≤ p ∧ p < hi)) := by
+  rw [slice_eq_filter_general ps hs _ _ w h]
+  have : inLimits (some lo) (some hi) = fun p => decide (lo ≤ p ∧ p < hi) :=
+    funext (inLimits_both hlo hhi)
+  rw [this]
+
+/-! ### C20: the per-method windows -/
+
+theorem betWindow_limits (ps roq : List α) (tenth : α) (lo hi : Option α) :
+    betWindow ps roq tenth (some (lo, hi)) = decide3 (limitWindow ps lo hi) := rfl
+
+theorem langWindow_limits (ps : List α) (c05 c90 : α) (lo hi : Option α) :
+    langWindow ps c05 c90 (some (lo, hi)) = decide3 (limitWindow ps lo hi) := rfl
+
+theorem daWindow_limits (ps : List α) (lo hi : Option α) :
+    daWindow ps (some (lo, hi)) = decide3 (limitWindow ps lo hi) := rfl
+
+/-- Langmuir default: the explicit window `[0.05·p_last, 0.9·p_last)`. -/
+theorem langWindow_default (ps : List α) (c05 c90 : α) :
+    langWindow ps c05 c90 none
+      = decide3 (limitWindow ps (some (ps.getD (ps.length - 1) 0 * c05)) (some (ps.getD (ps.length - 1) 0 * c90))) := rfl
+
+theorem daWindow_default (ps : List α) : daWindow ps none = decide3 (0, (ps.length : ℤ) - 1) := rfl
+
+/-- DA default: all points; accepted iff there are at least three. -/
+theorem daWindow_default_accepts_iff (ps : List α) :
+    daWindow ps none = some (0, ps.length - 1) ↔ 3 ≤ ps.length := by
+  rw [daWindow_default]; unfold decide3
+  split_ifs with hw
+  · simp only [false_iff]; omega
+  · simp only [Option.some.injEq, Prod.mk.injEq, true_and]
+    constructor
+    · intro _; omega
+    · intro _; omega
+
+theorem daWindow_default_refused_iff (ps : List α) : daWindow ps none = none ↔ ps.length < 3 := by
+  rw [daWindow_default]; unfold decide3
+  split_ifs with hw
+  · simp only [true_iff]; omega
+  · simp only [false_iff]; omega
+
+end Window
+
+/-! ### C21: the Rouquerol maximum -/
+section Rouquerol
+variable {α : Type} [LinearOrder α]
+
+lemma rouquerolMaxAux_cons_cons (a b : α) (rest : List α) (i : ℕ) :
+    rouquerolMaxAux (a :: b :: rest) i
+      = if a > b then some (i + 1) else rouquerolMaxAux (b :: rest) (i + 1) := rfl
+
+lemma rouquerolMaxAux_some (l : List α) (i m : ℕ) (h : rouquerolMaxAux l i = some m) :
+    ∃ (j : ℕ) (hj : j + 1 < l.length), m = i + j + 1 ∧ l[j + 1] < l[j] ∧
+      ∀ j' (hj' : j' < j), l[j'] ≤ l[j' + 1] := by
+  induction l generalizing i with
+  | nil => simp [rouquerolMaxAux] at h
+  | cons a tl ih =>
+    cases tl with
+    | nil => simp [rouquerolMaxAux] at h
+    | cons b rest =>
+      rw [rouquerolMaxAux_cons_cons] at h
+      by_cases hab : a > b
+      · rw [if_pos hab] at h
+        refine ⟨0, by simp, ?_, by simpa using hab, ?_⟩
+        · simp at h; omega
+        · intro j' hj'; omega
+      · rw [if_neg hab] at h
+        obtain ⟨j, hj, hm, hdec, hbefore⟩ := ih (i + 1) h
+        refine ⟨j + 1, by simpa using hj, by omega, by simpa using hdec, ?_⟩
+        intro j' hj'
+        cases j' with
+        | zero => simpa using not_lt.mp hab
+        | succ k =>
+          have := hbefore k (by omega)
+          simpa using this
+
+lemma rouquerolMaxAux_none (l : List α) (i : ℕ) (h : rouquerolMaxAux l i = none) :
+    ∀ j (hj : j + 1 < l.length), l[j] ≤ l[j + 1] := by
+  induction l generalizing i with
+  | nil => intro j hj; simp at hj
+  | cons a tl ih =>
+    cases tl with
+    | nil => intro j hj; simp at hj
+    | cons b rest =>
+      rw [rouquerolMaxAux_cons_cons] at h
+      by_cases hab : a > b
+      · rw [if_pos hab] at h; simp at h
+      · rw [if_neg hab] at h
+        intro j hj
+        cases j with
+        | zero => simpa using not_lt.mp hab
+        | succ k =>
+          have := ih (i + 1) h k (by simpa using hj)
+          simpa using this
+
+/-- a list that never decreases from one entry to the next is sorted -/
+lemma pairwise_le_of_steps (l : List α) (h : ∀ j (hj : j + 1 < l.length), l[j] ≤ l[j + 1]) :
+    l.Pairwise (· ≤ ·) := by
+  rw [List.pairwise_iff_getElem]
+  intro i j hi hj hij
+  obtain ⟨d, rfl⟩ := Nat.exists_eq_add_of_lt hij
+  induction d with
+  | zero => exact h i (by omega)
+  | succ d ih =>
+    have h1 := ih (by omega) (by omega)
+    have h2 := h (i + d + 1) (by omega)
+    exact le_trans h1 h2
+
+/-- **C21.** The Rouquerol maximum `m` of a non-empty transform list: `m` is a valid index; the transform never decreases
+between consecutive entries strictly before `m`; and either `m = j+1` where `(j, j+1)` is the FIRST decrease
+(`roq[j] > roq[j+1]`), or there is no decrease at all (the list is sorted) and `m` is the last index. -/
+theorem rouquerolMax_spec (roq : List α) (hne : roq ≠ []) :
+    rouquerolMax roq < roq.length ∧
+    (∀ j (hj : j + 1 < roq.length), j + 1 < rouquerolMax roq → roq[j] ≤ roq[j + 1]) ∧
+    ((∃ (j : ℕ) (hj : j + 1 < roq.length), rouquerolMax roq = j + 1 ∧ roq[j + 1] < roq[j]) ∨
+     (rouquerolMax roq = roq.length - 1 ∧ (∀ j (hj : j + 1 < roq.length), roq[j] ≤ roq[j + 1]) ∧
+        roq.Pairwise (· ≤ ·))) := by
+  have hlen : 0 < roq.length := List.length_pos_iff.mpr hne
+  have hmdef : rouquerolMax roq = (rouquerolMaxAux roq 0).getD (roq.length - 1) := rfl
+  cases haux : rouquerolMaxAux roq 0 with
+  | none =>
+    have hsteps := rouquerolMaxAux_none roq 0 haux
+    have hm : rouquerolMax roq = roq.length - 1 := by rw [hmdef, haux]; rfl
+    refine ⟨by omega, fun j hj _ => hsteps j hj, Or.inr ⟨hm, hsteps, pairwise_le_of_steps roq hsteps⟩⟩
+  | some m =>
+    obtain ⟨j, hj, hm, hdec, hbefore⟩ := rouquerolMaxAux_some roq 0 m haux
+    have hm' : rouquerolMax roq = j + 1 := by rw [hmdef, haux]; simp only [Option.getD_some]; omega
+    refine ⟨by omega, ?_, Or.inl ⟨j, hj, hm', hdec⟩⟩
+    intro j' hj' hlt
+    exact hbefore j' (by omega)
+
+/-- C21 in the index form of the task: in the first-decrease case `roq[m-1] > roq[m]` with `1 ≤ m < length`. -/
+theorem rouquerolMax_decrease_form (roq : List α) (hne : roq ≠ []) :
+    (∃ (_ : 1 ≤ rouquerolMax roq) (_ : rouquerolMax roq < roq.length),
+        roq[rouquerolMax roq] < roq[rouquerolMax roq - 1]) ∨
+    (rouquerolMax roq = roq.length - 1 ∧ roq.Pairwise (· ≤ ·)) := by
+  obtain ⟨_, _, h | h⟩ := rouquerolMax_spec roq hne
+  · left
+    obtain ⟨j, hj, hm, hdec⟩ := h
+    have key : ∀ m, m = j + 1 → ∃ (_ : 1 ≤ m) (_ : m < roq.length), roq[m] < roq[m - 1] := by
+      rintro m rfl
+      exact ⟨by omega, hj, by simpa using hdec⟩
+    exact key _ hm
+  · exact Or.inr ⟨h.1, h.2.2⟩
+
+theorem rouquerolMax_lt (roq : List α) (hne : roq ≠ []) : rouquerolMax roq < roq.length :=
+  (rouquerolMax_spec roq hne).1
+
+/-- sorted transform (no decrease anywhere) ⇒ the maximum is the last index -/
+theorem rouquerolMax_of_sorted (roq : List α) (hs : roq.Pairwise (· ≤ ·)) :
+    rouquerolMax roq = roq.length - 1 := by
+  by_cases hne : roq = []
+  · subst hne; rfl
+  obtain ⟨_, _, h | h⟩ := rouquerolMax_spec roq hne
+  · obtain ⟨j, hj, _, hdec⟩ := h
+    rw [List.pairwise_iff_getElem] at hs
+    exact absurd (hs j (j + 1) (by omega) hj (by omega)) (not_le.mpr hdec)
+  · exact h.1
+
+end Rouquerol
+
+/-! ### C22: the automatic BET window -/
+section AutoWindow
+variable {α : Type} [Field α] [LinearOrder α]
+
+/-- `p_limits = None`: the code's window is `[searchsorted(ps, 0.1·ps[m]), m]` with `m` the Rouquerol maximum. -/
+theorem betWindow_auto (ps roq : List α) (tenth : α) :
+    betWindow ps roq tenth none
+      = decide3 (searchsorted ps (ps.getD (rouquerolMax roq) 0 * tenth), (rouquerolMax roq : ℤ)) := rfl
+
+omit [Field α] in
+/-- the window `[searchsorted ps v, m]` of a sorted list consists of the indices `i ≤ m` with `v ≤ ps[i]` -/
+theorem autoWindow_index_iff (ps : List α) (hs : ps.Pairwise (· ≤ ·)) (v : α) (m i : ℕ) (h : i < ps.length) :
+    (searchsorted ps v ≤ i ∧ i ≤ m) ↔ (v ≤ ps[i] ∧ i ≤ m) := by
+  rw [← not_lt, lt_searchsorted_iff ps hs v i h, not_lt]
+
+omit [Field α] in
+/-- the slice `[searchsorted ps v, m]` is the first `m+1` points filtered by `v ≤ p` -/
+theorem autoWindow_filter (ps : List α) (hs : ps.Pairwise (· ≤ ·)) (v : α) (m : ℕ) :
+    (ps.take (m + 1)).filter (fun p => decide (v ≤ p)) = (ps.take (m + 1)).drop (searchsorted ps v) := by
+  have := filter_eq_drop_take (fun p => decide (v ≤ p)) (ps.take (m + 1)) (searchsorted ps v) (m + 1) ?_
+  · rw [this, List.take_take, min_self]
+  · intro i hi
+    have hi' : i < ps.length := by
+      rw [List.length_take] at hi; omega
+    have hi'' : i < m + 1 := by
+      rw [List.length_take] at hi; omega
+    rw [List.getElem_take, decide_eq_true_eq, ← not_lt, ← lt_searchsorted_iff ps hs v i hi', not_lt]
+    exact (and_iff_left hi'').symm
+
+omit [Field α] in
+/-- refusal of `[searchsorted ps v, m]` ⇔ fewer than three of the first `m+1` points have `v ≤ p` -/
+theorem autoWindow_refused_iff (ps : List α) (hs : ps.Pairwise (· ≤ ·)) (v : α) (m : ℕ) (hm : m < ps.length) :
+    decide3 (searchsorted ps v, (m : ℤ)) = none
+      ↔ (ps.take (m + 1)).countP (fun p => decide (v ≤ p)) < 3 := by
+  rw [List.countP_eq_length_filter, autoWindow_filter ps hs v m, List.length_drop, List.length_take]
+  unfold decide3
+  split_ifs with hw
+  · simp only [true_iff]; omega
+  · simp only [false_iff]; omega
+
+/-- **C22.** Automatic BET window (`p_limits = None`) for a sorted pressure list and a Rouquerol transform of the same
+(non-zero) length, `m` the Rouquerol maximum: `m` is a valid index, the window is
+`decide3 (searchsorted ps (0.1·ps[m]), m)`, it selects exactly the indices `i ≤ m` with `0.1·ps[m] ≤ ps[i]`,
+it is refused iff fewer than three such points exist, and when accepted the fitted slice is those points. -/
+theorem betWindow_auto_spec (ps roq : List α) (tenth : α) (hs : ps.Pairwise (· ≤ ·))
+    (hlen : roq.length = ps.length) (hne : ps ≠ []) :
+    ∃ hm : rouquerolMax roq < ps.length,
+      betWindow ps roq tenth none
+        = decide3 (searchsorted ps (ps[rouquerolMax roq] * tenth), (rouquerolMax roq : ℤ)) ∧
+      (∀ i (h : i < ps.length),
+        (searchsorted ps (ps[rouquerolMax roq] * tenth) ≤ i ∧ i ≤ rouquerolMax roq)
+          ↔ (ps[rouquerolMax roq] * tenth ≤ ps[i] ∧ i ≤ rouquerolMax roq)) ∧
+      (betWindow ps roq tenth none = none
+        ↔ (ps.take (rouquerolMax roq + 1)).countP (fun p => decide (ps[rouquerolMax roq] * tenth ≤ p)) < 3) ∧
+      (∀ w, betWindow ps roq tenth none = some w →
+        slice ps w = (ps.take (rouquerolMax roq + 1)).filter (fun p => decide (ps[rouquerolMax roq] * tenth ≤ p))) := by
+  have hroq : roq ≠ [] := by
+    intro h; rw [h] at hlen; exact hne (List.length_eq_zero_iff.mp hlen.symm)
+  have hm : rouquerolMax roq < ps.length := hlen ▸ rouquerolMax_lt roq hroq
+  have hget : ps.getD (rouquerolMax roq) 0 = ps[rouquerolMax roq] := List.getD_eq_getElem _ _ hm
+  have hbw : betWindow ps roq tenth none
+        = decide3 (searchsorted ps (ps[rouquerolMax roq] * tenth), (rouquerolMax roq : ℤ)) := by
+    rw [betWindow_auto, hget]
+  refine ⟨hm, hbw, fun i h => autoWindow_index_iff ps hs _ _ i h, ?_, ?_⟩
+  · rw [hbw]; exact autoWindow_refused_iff ps hs _ _ hm
+  · intro w hw
+    rw [hbw] at hw
+    obtain ⟨a, b⟩ := w
+    have h1 := decide3_some _ a b hw
+    simp only at h1
+    rw [autoWindow_filter ps hs]
+    unfold slice
+    have hb : b = rouquerolMax roq := by omega
+    rw [hb, h1.1]
+
+end AutoWindow
+
+/-! ### C23: the open section of the t-plot / alpha-s methods -/
+section OpenSection
+variable {α : Type} [Field α] [LinearOrder α]
+
+/-- **C23a.** `openSection` returns exactly the indices whose curve value lies strictly between the limits. -/
+theorem mem_openSection (curve : List α) (lo hi : α) (i : ℕ) :
+    i ∈ openSection curve lo hi ↔ ∃ h : i < curve.length, lo < curve[i] ∧ curve[i] < hi := by
+  unfold openSection
+  rw [List.mem_filter, List.mem_range]
+  constructor
+  · rintro ⟨h, hp⟩
+    rw [List.getD_eq_getElem _ _ h] at hp
+    exact ⟨h, by simpa using hp⟩
+  · rintro ⟨h, hp⟩
+    refine ⟨h, ?_⟩
+    rw [List.getD_eq_getElem _ _ h]
+    simpa using hp
+
+/-- **C23b.** The returned indices are strictly increasing (in particular without repetition). -/
+theorem openSection_sorted (curve : List α) (lo hi : α) : (openSection curve lo hi).Pairwise (· < ·) := by
+  unfold openSection
+  exact List.Pairwise.filter _ List.pairwise_lt_range
+
+/-- **C23 (combined form asked for in the task).** -/
+theorem openSection_spec (curve : List α) (lo hi : α) :
+    (∀ i, i ∈ openSection curve lo hi ↔ ∃ h : i < curve.length, lo < curve[i] ∧ curve[i] < hi) ∧
+    (openSection curve lo hi).Pairwise (· < ·) :=
+  ⟨mem_openSection curve lo hi, openSection_sorted curve lo hi⟩
+
+/-- the points picked by the open section are the points of the curve strictly between the limits, in order -/
+theorem pick_openSection (curve : List α) (lo hi : α) :
+    pick curve (openSection curve lo hi) = curve.filter (fun t => decide (lo < t ∧ t < hi)) := by
+  have hmap : (List.range curve.length).map (fun i => curve.getD i 0) = curve := by
+    apply List.ext_getElem
+    · simp
+    · intro i h1 h2
+      simp only [List.getElem_map, List.getElem_range]
+      exact List.getD_eq_getElem _ _ h2
+  unfold pick openSection
+  conv_rhs => rw [← hmap, List.filter_map]
+  rfl
+
+end OpenSection
+
+/-! ### C20 (continued): content of the per-method defaults -/
+section Defaults
+variable {α : Type} [Field α] [LinearOrder α]
+
+/-- explicit limits in BET / Langmuir / DA: refused ⇔ fewer than three points inside the given limits -/
+theorem betWindow_limits_refused_iff (ps roq : List α) (tenth : α) (hs : ps.Pairwise (· ≤ ·)) (lo hi : Option α) :
+    betWindow ps roq tenth (some (lo, hi)) = none ↔ ps.countP (inLimits lo hi) < 3 :=
+  window_refused_iff_general ps hs lo hi
+
+theorem langWindow_limits_refused_iff (ps : List α) (c05 c90 : α) (hs : ps.Pairwise (· ≤ ·)) (lo hi : Option α) :
+    langWindow ps c05 c90 (some (lo, hi)) = none ↔ ps.countP (inLimits lo hi) < 3 :=
+  window_refused_iff_general ps hs lo hi
+
+theorem daWindow_limits_refused_iff (ps : List α) (hs : ps.Pairwise (· ≤ ·)) (lo hi : Option α) :
+    daWindow ps (some (lo, hi)) = none ↔ ps.countP (inLimits lo hi) < 3 :=
+  window_refused_iff_general ps hs lo hi
+
+/-- Langmuir default window for a sorted list whose last pressure `p_last` makes both default limits non-zero
+(e.g. `p_last > 0`, `c05, c90 ≠ 0`): refused ⇔ fewer than three points in `[c05·p_last, c90·p_last)`; when accepted
+the fitted slice is exactly those points. -/
+theorem langWindow_default_spec (ps : List α) (c05 c90 : α) (hs : ps.Pairwise (· ≤ ·))
+    (hlo : ps.getD (ps.length - 1) 0 * c05 ≠ 0) (hhi : ps.getD (ps.length - 1) 0 * c90 ≠ 0) :
+    (langWindow ps c05 c90 none = none ↔
+      ps.countP (fun p => decide (ps.getD (ps.length - 1) 0 * c05 ≤ p ∧ p < ps.getD (ps.length - 1) 0 * c90)) < 3) ∧
+    (∀ w, langWindow ps c05 c90 none = some w →
+      slice ps w
+        = ps.filter (fun p => decide (ps.getD (ps.length - 1) 0 * c05 ≤ p ∧ p < ps.getD (ps.length - 1) 0 * c90))) := by
+  rw [langWindow_default]
+  exact ⟨window_refused_iff ps hs _ _ hlo hhi, fun w hw => slice_eq_filter ps hs _ _ hlo hhi w hw⟩
+
+/-- DA default: when accepted, the whole list is fitted. -/
+theorem daWindow_default_slice (ps : List α) (w : ℕ × ℕ) (h : daWindow ps none = some w) : slice ps w = ps := by
+  rw [daWindow_default] at h
+  obtain ⟨a, b⟩ := w
+  have h1 := decide3_some _ a b h
+  simp only at h1
+  unfold slice
+  have ha : a = 0 := h1.1
+  have hb : b + 1 = ps.length := by omega
+  simp only [ha, hb, List.take_length, List.drop_zero]
+
+end Defaults
+
+/-! ## D. non-vacuity: the hypothesis bundles are satisfiable, and concrete evaluations of the model (TESTS, not properties) -/
+section Examples
+
+/-- the hypothesis bundle of `bet_recovers` / `da_recovers` / `langmuir_recovers` is satisfiable -/
+example : ([1/10, 2/10, 3/10] : List ℝ).Pairwise (· < ·) ∧ 2 ≤ ([1/10, 2/10, 3/10] : List ℝ).length ∧
+    ∀ p ∈ ([1/10, 2/10, 3/10] : List ℝ), 0 < p ∧ p < 1 := by
+  refine ⟨by simp; norm_num, by simp, ?_⟩
+  intro p hp
+  simp only [List.mem_cons, List.not_mem_nil, or_false] at hp
+  rcases hp with rfl | rfl | rfl <;> norm_num
+
+/-- `bet_recovers` instantiated (n_m = 2, c = 100) -/
+example :
+    let r := ols ([1/10, 2/10, 3/10] : List ℝ) (([1/10, 2/10, 3/10] : List ℝ).map fun p => bet_transform p (simple_bet p 2 100))
+    bet_c_const r.1 r.2 = 100 ∧ bet_n_monolayer r.2 (bet_c_const r.1 r.2) = 2 := by
+  have h := bet_recovers 2 100 [1/10, 2/10, 3/10] (by norm_num) (by norm_num) (by simp; norm_num) (by simp)
+    (by intro p hp
+        simp only [List.mem_cons, List.not_mem_nil, or_false] at hp
+        rcases hp with rfl | rfl | rfl <;> norm_num)
+  exact h.2
+
+/-- `langmuir_recovers` instantiated -/
+example :
+    let r := ols ([1, 2, 5] : List ℝ) (([1, 2, 5] : List ℝ).map fun p => langmuir_transform p (simple_lang p 3 (1/2)))
+    lang_n_monolayer r.1 = 3 ∧ lang_const r.2 (lang_n_monolayer r.1) = 1/2 := by
+  have h := langmuir_recovers 3 (1/2) [1, 2, 5] (by norm_num) (by norm_num) (by simp; norm_num) (by simp)
+    (by intro p hp
+        simp only [List.mem_cons, List.not_mem_nil, or_false] at hp
+        rcases hp with rfl | rfl | rfl <;> norm_num)
+  exact h.2
+
+/-- `da_recovers` instantiated (DR: k = 2) -/
+example :
+    let r := ols (([1/10, 2/10, 3/10] : List ℝ).map fun p => log_p_exp p 2)
+      (([1/10, 2/10, 3/10] : List ℝ).map fun p => log_v_adj (nDA (1/2) (4/5) 28 77 6 2 p) 28 (4/5))
+    da_microp_volume r.2 = 1/2 ∧ da_potential 77 2 r.1 = 6 := by
+  have h := da_recovers (1/2) (4/5) 28 77 6 2 [1/10, 2/10, 3/10] (by norm_num) (by norm_num) (by norm_num)
+    (by norm_num) (by norm_num) (by norm_num) (by simp; norm_num) (by simp)
+    (by intro p hp
+        simp only [List.mem_cons, List.not_mem_nil, or_false] at hp
+        rcases hp with rfl | rfl | rfl <;> norm_num)
+  exact h.2
+
+/-- t-plot / alpha-s bundles -/
+example : (ols ([1, 2, 4] : List ℝ) (([1, 2, 4] : List ℝ).map fun t => 3 * t + 7)) = (3, 7) :=
+  (tplot_recovers 3 7 1 1 [1, 2, 4] (by simp; norm_num) (by simp)).1
+
+example : alphas_area 5 100 (ols (([1, 2, 4] : List ℝ).map fun x => alphas_curve x 5) [1, 2, 4]).1 = 100 :=
+  (alphas_self_returns_reference_area 5 100 [1, 2, 4] (by norm_num) (by simp; norm_num) (by simp)).2
+
+/-! concrete evaluations of the model at ℚ -/
+
+example : ols (α := ℚ) [1, 2, 3] [3, 5, 7] = (2, 1) := by
+  norm_num [ols, sxy, mean, PgVerif.Model.Linear.sum]
+
+/-- all abscissae equal: degenerate, the totalised division returns slope 0 (this is why `ols_exact` carries a guard) -/
+example : ols (α := ℚ) [2, 2, 2] [3, 5, 7] = (0, 5) := by
+  norm_num [ols, sxy, mean, PgVerif.Model.Linear.sum]
+
+example : searchsorted (α := ℚ) [1/10, 2/10, 3/10, 4/10] (1/4) = 2 := by decide +kernel
+example : searchsorted (α := ℚ) [1/10, 2/10, 3/10, 4/10] (2/10) = 1 := by decide +kernel
+
+/-- half-open: a point equal to the lower limit is kept, a point equal to the upper limit is dropped -/
+example : limitWindow (α := ℚ) [1/20, 1/10, 2/10, 3/10, 4/10] (some (1/10)) (some (3/10)) = (1, 2) := by decide +kernel
+/-- Python truthiness: a limit `0` is "not given" -/
+example : limitWindow (α := ℚ) [1/20, 1/10, 2/10, 3/10, 4/10] (some 0) (some 0) = (0, 4) := by decide +kernel
+/-- upper limit below every point: `maximum = -1`, refused -/
+example : limitWindow (α := ℚ) [1/20, 1/10, 2/10] (some 5) (some (1/1000)) = (3, -1) := by decide +kernel
+example : decide3 (limitWindow (α := ℚ) [1/20, 1/10, 2/10] (some 5) (some (1/1000))) = none := by decide +kernel
+/-- two points inside the limits: refused; three: accepted -/
+example : betWindow (α := ℚ) [1/20, 1/10, 2/10, 3/10, 4/10] [] (1/10) (some (some (1/10), some (3/10))) = none := by decide +kernel
+example : betWindow (α := ℚ) [1/20, 1/10, 2/10, 3/10, 4/10] [] (1/10) (some (some (1/10), some (7/20))) = some (1, 3) := by
+  decide +kernel
+
+/-- automatic BET window on a 6-point list: Rouquerol transform first decreases from index 3 to 4, so `m = 4`,
+`0.1·ps[4] = 0.03`, window `[1, 4]` -/
+example : rouquerolMax (α := ℚ) [1, 2, 3, 4, 3, 2] = 4 := by decide +kernel
+example : betWindow (α := ℚ) [1/100, 1/20, 1/10, 2/10, 3/10, 1/2] [1, 2, 3, 4, 3, 2] (1/10) none = some (1, 4) := by
+  decide +kernel
+/-- never-decreasing Rouquerol transform: `m` is the last index -/
+example : rouquerolMax (α := ℚ) [1, 2, 2, 4] = 3 := by decide +kernel
+
+example : langWindow (α := ℚ) [1/100, 1/10, 2/10, 1/2, 8/10, 1] (1/20) (9/10) none = some (1, 4) := by decide +kernel
+example : daWindow (α := ℚ) [1/100, 1/10] none = none := by decide +kernel
+example : daWindow (α := ℚ) [1/100, 1/10, 2/10] none = some (0, 2) := by decide +kernel
+
+/-- hypothesis bundle of `betWindow_auto_spec` / `limitWindow_spec` / `window_refused_iff` -/
+example : ([1/100, 1/20, 1/10, 2/10, 3/10, 1/2] : List ℚ).Pairwise (· ≤ ·) ∧
+    ([1, 2, 3, 4, 3, 2] : List ℚ).length = ([1/100, 1/20, 1/10, 2/10, 3/10, 1/2] : List ℚ).length ∧
+    ([1/100, 1/20, 1/10, 2/10, 3/10, 1/2] : List ℚ) ≠ [] ∧ (1/10 : ℚ) ≠ 0 ∧ (3/10 : ℚ) ≠ 0 := by
+  refine ⟨by decide +kernel, rfl, by simp, by norm_num, by norm_num⟩
+/-- `window_refused_iff` on a concrete list: two points in `[0.1, 0.3)`, refused -/
+example : ([1/20, 1/10, 2/10, 3/10, 4/10] : List ℚ).countP (fun p => decide ((1/10 : ℚ) ≤ p ∧ p < 3/10)) = 2 := by
+  decide +kernel
+
+example : slice (α := ℚ) [10, 11, 12, 13, 14, 15] (1, 4) = [11, 12, 13, 14] := by decide +kernel
+example : openSection (α := ℚ) [1/10, 3/10, 5/10, 7/10, 3/10] (2/10) (6/10) = [1, 2, 4] := by decide +kernel
+
+end Examples
 
 end PgVerif.Props.C14
